@@ -188,6 +188,11 @@ func run() error {
 }
 
 func addImport(f *ast.File, alias, path string) {
+	for _, im := range f.Imports {
+		if im.Name != nil && im.Name.Name == alias {
+			return
+		}
+	}
 	spec := &ast.ImportSpec{Name: ast.NewIdent(alias), Path: &ast.BasicLit{Kind: token.STRING, Value: strconv.Quote(path)}}
 	for _, d := range f.Decls {
 		if gd, ok := d.(*ast.GenDecl); ok && gd.Tok == token.IMPORT {
@@ -302,12 +307,47 @@ func rewrite(fset *token.FileSet, f *ast.File, dst, mod string, inf *info) error
 		}
 	}
 	rewriteSelects(f, inf)
+	if guardGoStmts(f) {
+		addImport(f, "vverifsched", mod+"/internal/vsched")
+	}
 	var buf bytes.Buffer
 	cfg := printer.Config{Mode: printer.UseSpaces | printer.TabIndent, Tabwidth: 8}
 	if err := cfg.Fprint(&buf, fset, f); err != nil {
 		return err
 	}
 	return os.WriteFile(dst, buf.Bytes(), 0o644)
+}
+
+// guardGoStmts makes every goroutine started by the package report a panic to the scheduler
+// instead of killing the worker process: `go f()` -> `go func() { defer RecoverGo(); f() }()`
+// (only when the call has no arguments, so evaluation order is unchanged) and
+// `go func(..){B}(..)` -> the deferred call is prepended to B.
+func guardGoStmts(f *ast.File) bool {
+	changed := false
+	deferStmt := func() ast.Stmt {
+		return &ast.DeferStmt{Call: &ast.CallExpr{Fun: &ast.SelectorExpr{X: ast.NewIdent("vverifsched"), Sel: ast.NewIdent("RecoverGo")}}}
+	}
+	ast.Inspect(f, func(n ast.Node) bool {
+		g, ok := n.(*ast.GoStmt)
+		if !ok {
+			return true
+		}
+		if lit, ok := g.Call.Fun.(*ast.FuncLit); ok {
+			lit.Body.List = append([]ast.Stmt{deferStmt()}, lit.Body.List...)
+			changed = true
+			return true
+		}
+		if len(g.Call.Args) == 0 {
+			inner := g.Call
+			g.Call = &ast.CallExpr{Fun: &ast.FuncLit{
+				Type: &ast.FuncType{Params: &ast.FieldList{}},
+				Body: &ast.BlockStmt{List: []ast.Stmt{deferStmt(), &ast.ExprStmt{X: inner}}},
+			}}
+			changed = true
+		}
+		return true
+	})
+	return changed
 }
 
 func hasLabel(stmts []ast.Stmt) bool {
